@@ -204,6 +204,10 @@ class C20(Check):
                     for ob in range(b["pair_b"]):
                         yield {"kind": "pair", "family": fam, "table": group["table"], "prof": group["prof"], "R": group["R"],
                                "offa": seed * 3 + oa, "offb": seed * 3 + 100 + ob}
+                        if fam == "indep" and ob == 0:
+                            # sparse / non-negative factor matrices have all-zero ROWS (their columns stay non-zero): a legitimate input
+                            yield {"kind": "pair", "family": fam, "table": group["table"], "prof": group["prof"], "R": group["R"],
+                                   "offa": seed * 3 + oa, "offb": seed * 3 + 100 + ob, "zero_rows": True}
         elif kind == "cpperm":
             R = group["R"]
             off = seed * 5
@@ -379,6 +383,14 @@ class C20(Check):
                     if not np.any(bk[:, j]):
                         bk[0, j] = 1.0
                 B.append(bk)
+        if case.get("zero_rows"):
+            A, B = [np.array(a, copy=True) for a in A], [np.array(x, copy=True) for x in B]
+            for M, r in [(a, 0) for a in A] + [(x, -1) for x in B]:
+                if M.shape[0] >= 2:
+                    M[r, :] = 0.0
+                    for j in range(M.shape[1]):
+                        if not np.any(M[:, j]):
+                            M[0 if r == -1 else 1, j] = 1.0
         cos = [REF.cos_matrix(A[k], B[k]) for k in range(n)]
         C_by_abs = {True: REF.product_matrix(cos, True), False: REF.product_matrix(cos, False)}
         label = f"A={[a.tolist() for a in A]} B={[x.tolist() for x in B]}"
